@@ -65,9 +65,16 @@ SetattrSeq(S, q, X) ==
                  IF ~o.ok THEN o ELSE LET t == FTruncate(o.S, TmpKey, a.size) IN [t EXCEPT !.S = Close(t.S, TmpKey)]
   IN IF ~s3.ok THEN s3 ELSE Succ(s3.S, Attr(s3.S, id))
 
+\* files too long for the token model (X.big): their content and size are outside the model; I/O on them is
+\* only compared with the shadow ("free"), names and link counts are still modelled
+BigTarget(S, X, q) ==
+  q.op \in {"read", "write", "fallocate", "lseek"} /\
+  ((("h" \in DOMAIN q) /\ q.h >= 0 /\ HasHandle(S, q.h) /\ IdOf(S, HKey(q.h)) \in X.big)
+   \/ (("n" \in DOMAIN q) /\ HasRef(S, q.n) /\ IdOf(S, q.n) \in X.big))
 Expect(S, X, q, ns, hs, nid) ==
   LET o == q.op IN
-  CASE o = "lookup" ->
+  CASE BigTarget(S, X, q) -> Free(S)
+    [] o = "lookup" ->
          IF ~HasRef(S, q.p) THEN NoSlot(S)
          ELSE IF GatedName(q.nk, TRUE) THEN Gate(S, {"EINVAL"}, "name")
          ELSE LET p == IdOf(S, q.p)
